@@ -269,6 +269,10 @@ func (g *genr) addDeps(d *Deps, self string, n int, aliasOdds int) {
 		if g.rng.Intn(aliasOdds) == 0 {
 			x = Dep{Name: g.aliasKey(t.Name), Req: x.Req, Real: t.Name}
 		}
+		if g.rng.Intn(40) == 0 {
+			// A package the registry does not have (never published, private).
+			x = Dep{Name: uni.Pick(g.rng, "ghost", "@s/ghost"), Req: x.Req}
+		}
 		if keys[x.Name] {
 			continue
 		}
@@ -338,7 +342,10 @@ func (g *genr) bundle(holders []string, depth, maxDepth int, taken map[string]bo
 // real packages do: in bundleDependencies and, mostly, in dependencies too.
 func (g *genr) declare(d *Deps, b *Bundle) {
 	keys := d.keys()
-	if g.rng.Intn(10) < 7 && !contains(d.Bundle, b.Dir) {
+	// (An alias directory is rarely listed: a bundleDependencies entry is a
+	// requirement on a package of that name, and an alias names none. That is
+	// a frequent source of resolutions that exhaust the step budget.)
+	if g.rng.Intn(10) < 7 && !contains(d.Bundle, b.Dir) && (b.Dir == b.Name || g.rng.Intn(6) == 0) {
 		d.Bundle = append(d.Bundle, b.Dir)
 	}
 	if g.rng.Intn(2) == 0 && !keys[b.Dir] {
